@@ -32,6 +32,13 @@ def run(prop, quick=(8, 40), thorough=(16, 500), extra=None, require=(), maxstmt
             else:
                 R.merge(res[prop])
     if prop == "C06":
+        fam = [dict(seed="%d/C06/loop/%d" % (common.seed(), s), n=12 if tier == "quick" else 60) for s in range(2 if tier == "quick" else 8)]
+        for job, res, err in shard.run_jobs("vf.progwork", "loop_family", fam, timeout=900):
+            if err:
+                R.inconc("secret loop bound family: %s" % err[-300:])
+            else:
+                R.merge(res[prop])
+    if prop == "C06":
         # two runs of the same program in two interpreters (different hash seed, different secret inputs)
         npr = 60 if tier == "quick" else 600
         pairs = 2 if tier == "quick" else 6
@@ -60,6 +67,12 @@ def run(prop, quick=(8, 40), thorough=(16, 500), extra=None, require=(), maxstmt
                     R.violation("trace-differs-between-interpreters", "the same program emits different constraint systems in two interpreters (hash seeds, inputs %s vs %s; %d vs %d events)" % (
                         fa[2], fb[2], fa[1], fb[1]), src=(a.get("sources") or [None] * (i + 1))[i], inputs_a=fa[2], inputs_b=fb[2])
     if prop in ("C01", "C04"):
+        fam = [dict(seed="%d/%s/foreign/%d" % (common.seed(), prop, s), props=[prop], n=3000) for s in range(2 if tier == "quick" else 8)]
+        for job, res, err in shard.run_jobs("vf.progwork", "foreign_operands", fam, timeout=1800):
+            if err:
+                R.inconc("foreign-operand family: %s" % err[-300:])
+            else:
+                R.merge(res[prop])
         for job, res, err in shard.run_jobs("vf.progwork", "suite_under_monitors", [dict(props=[prop])], timeout=900):
             if err:
                 R.inconc("repository test-suite under monitors: %s" % err[-300:])
